@@ -508,7 +508,8 @@ void harness(void)
     /* C02: start-up input was delivered completely and stdin closed */
     if (o.input.data != NULL && g_eff.redirect.in.type == REPROC_REDIRECT_PIPE) {
       bool found = false;
-      for (int q = 0; q < VP_NPIPE; q++) {
+      /* the stdin pipe is the first pipe reproc_start creates: pipe object 0 */
+      for (int q = 0; q < 1; q++) {
         if (vp_pp_used[q] && vp_pp_cr[VP_PC(q, 0)] && vp_of_refs[vp_pp_w[q]] == 0 &&
             vp_pp_len[q] == (int) o.input.size) {
           bool same = true;
